@@ -101,6 +101,9 @@ package ctlog
 //@   call ctlog.(*Log).cachePut requires [C04,C07] cached-indexes-are-positions: len(sequencedLeaves) == len(p.pendingLeaves) && (forall k int :: (0 <= k && k < len(sequencedLeaves)) ==> (sequencedLeaves[k].LeafIndex == old(l.tree.N) + k && sequencedLeaves[k].Timestamp == timestamp))
 //@   returns [C02,C03,C04] ack-only-after-every-staged-tile-was-uploaded: gAppliedOK == 1 ==> (tlen(tarRecs(stagedUploads)) == len(tileUploads) && (forall k int {tname(tarRecs(stagedUploads), k)} :: (0 <= k && k < len(tileUploads)) ==> (tname(tarRecs(stagedUploads), k) == tileUploads[k].key && gUp[tileUploads[k].key])))
 //@   ensures [C02,C17] waiters-released: closed(p.done)
+//@   ensures [C17] other-pools-err-untouched: forall q *ctlog.pool :: q != p ==> q.err == old(q.err)
+//@   ensures [C17] other-pools-done-untouched: forall q *ctlog.pool :: q.done == old(q.done)
+//@   ensures [C17] other-channels-untouched: forall ch Ref :: ch != p.done ==> closed(ch) == old(closed(ch))
 //@   ensures [C02] ack-implies-published: p.err == nil ==> gUp["checkpoint"] && gUpData["checkpoint"] == gLastNew && gReplaceOK == 1 && gAppliedOK == 1
 //@   ensures [C02] result-set: p.err == nil ==> p.firstLeafIndex == old(l.tree.N) && p.timestamp > old(l.tree.Time)
 //@   ensures [C06] cas-failure-fatal: gReplaceTried == 1 && gReplaceOK == 0 ==> err != nil && Is(err, errFatal) && p.err != nil
